@@ -56,3 +56,24 @@ Proof.
   rewrite tau_spec_R, lim_of_R; unfold tau_el; rewrite !interp_R; unfold gapP, gapF; cbn [c_cur c_prev c_next];
   [split; [lra|]|]; rdecide.
 Qed.
+
+(* ---- executed instance (Q, extracted to OCaml and run against /repo) = the real-number functions
+   the theorems above are about: kernel-checked parametricity bridge (Bridge.v).  qL = map Q2R etc. ---- *)
+From Coq Require Import QArith Qreals.
+From PS Require Import Bridge.
+Local Close Scope Q_scope.
+Theorem C16_exec_get_tau_transfer : forall (c1 c2 : option ctx) (lim mrts : Q), Q2R (get_tau QOps c1 c2 lim mrts) = get_tau ROps (qCtx c1) (qCtx c2) (Q2R lim) (Q2R mrts).
+Proof. exact get_tau_transfer. Qed.
+Print Assumptions C16_exec_get_tau_transfer.
+Theorem C16_exec_get_tau_cy_transfer : forall (c1 c2 : option ctx) (lim mrts : Q), Q2R (get_tau_cy QOps c1 c2 lim mrts) = get_tau_cy ROps (qCtx c1) (qCtx c2) (Q2R lim) (Q2R mrts).
+Proof. exact get_tau_cy_transfer. Qed.
+Print Assumptions C16_exec_get_tau_cy_transfer.
+Theorem C16_exec_true_max_transfer : forall ts te mt : Q, Q2R (true_max QOps ts te mt) = true_max ROps (Q2R ts) (Q2R te) (Q2R mt).
+Proof. exact true_max_transfer. Qed.
+Print Assumptions C16_exec_true_max_transfer.
+Theorem C16_exec_coinc_transfer : forall (lim mrts : Q) (c1 c2 : ctx), coinc QOps lim mrts c1 c2 = coinc ROps (Q2R lim) (Q2R mrts) (ctxmap Q2R c1) (ctxmap Q2R c2).
+Proof. exact coinc_transfer. Qed.
+Print Assumptions C16_exec_coinc_transfer.
+Theorem C16_exec_tau_spec_transfer : forall (lim mrts : Q) (c1 c2 : ctx), Q2R (tau_spec QOps lim mrts c1 c2) = tau_spec ROps (Q2R lim) (Q2R mrts) (ctxmap Q2R c1) (ctxmap Q2R c2).
+Proof. exact tau_spec_transfer. Qed.
+Print Assumptions C16_exec_tau_spec_transfer.
